@@ -39,8 +39,12 @@ Adv(b, o, k) == Pos(b + (o + k) \div 64, (o + k) % 64)
 
 Init == gens = <<Gen(0, 0, 0, 0)>> /\ hist = <<>> /\ stored = <<>>
 
+\* Blocks at the END of the stream are written as negative numbers: -1 is the last block 2^32 - 1 of a ChaCha20 stream, -2 the one
+\* before (TLC's integers stop at 2^31).  A generator placed there reads only inside the stream: what lies beyond 2^38 bytes is
+\* not defined by RFC 8439 (the library panics with "counter overflow", like a genuine generator after 256 GiB).
 Read(i, k) ==
   /\ i \in 1..Len(gens)
+  /\ (gens[i].blk < 0 => Adv(gens[i].blk, gens[i].off, k).b < 0)
   /\ LET g == gens[i]  c == Adv(g.cb, g.co, k)  p == Adv(g.blk, g.off, k) IN
      /\ gens' = [gens EXCEPT ![i] = Gen(c.b, c.o, p.b, p.o)]
      /\ hist' = Append(hist, [op |-> "read", g |-> i, k |-> k, from |-> Pos(g.blk, g.off), path |-> IF k <= 64 THEN "zero-message" ELSE "in-place"])
@@ -71,6 +75,7 @@ Resume(k) ==
 \* a state crafted by hand (seed || customizer || counter) and restored: replaces generator 1
 FarBlocks == {67108863, 67108864, 67108865, 1073741831,      \* 2^26 - 1, 2^26, 2^26 + 1 (byte offsets around 2^32), 2^30 + 7
               255, 256, 65535, 65536, 16777215, 16777216}     \* the bytes of the block counter roll over
+EndBlocks == {-3, -2, -1}                                      \* 2^32 - 3 .. 2^32 - 1: states inside the last blocks of the stream
 Craft(b, o) ==
   /\ Len(hist) = 0
   /\ gens' = <<Restored(b, o)>>
@@ -94,7 +99,7 @@ Next ==
         \/ \E i \in 1..Len(gens) : Allowed("fork", i, 0) /\ Fork(i)
         \/ (Pattern \in {"free", "far"} /\ Len(hist) > 0 /\ \E i \in 1..Len(gens) : Keep(i))
         \/ (Pattern \in {"free", "far"} /\ \E k \in 1..Len(stored) : Resume(k))
-        \/ (Pattern = "far" /\ \E b \in FarBlocks, o \in {0, 1, 63} : Craft(b, o))
+        \/ (Pattern = "far" /\ \E b \in FarBlocks \cup EndBlocks, o \in {0, 1, 63} : Craft(b, o))
   \/ (Len(hist) = MaxOps /\ UNCHANGED vars)
 Spec == Init /\ [][Next]_vars
 
